@@ -694,6 +694,8 @@ def run_runner_case(case, sinks=(), with_logger=True, extra_classes=(), settings
                     v["class"] = "Extending" + v["class"]
                 if isinstance(v, dict) and v.get("userSubclass") and v.get("class") == "IndexMarket":
                     v["class"] = "UserIndexMarket"
+            if settings_obj is None:
+                expand_via_extends(settings)
             if case.get("decoy_classes"):
                 # another experiment of the same process: classes with the same names but other behaviour
                 cls = dict(cls)
@@ -1150,7 +1152,73 @@ def add_first_attempts(rng, cfg, p=0.15):
             n += 1
     sprinkle_empty_event_lists(rng, cfg)
     sprinkle_obsolete_keys(cfg)
+    mark_via_extends(cfg)
     return n
+
+
+def _wrong(v, markets):
+    """another value of the same type (what a template holds before a derived block overrides it)."""
+    if isinstance(v, bool):
+        return not v
+    if isinstance(v, int):
+        return v * 3 + 1
+    if isinstance(v, float):
+        return v * 3.0 + 0.125
+    if isinstance(v, str):
+        others = [m for m in markets if m != v]
+        return others[0] if (v in markets and others) else v
+    if isinstance(v, list) and v and all(isinstance(x, str) for x in v):
+        others = [m for m in markets if m not in v]
+        return (others[:1] or v[:1])
+    return v
+
+
+def mark_via_extends(cfg, p=0.3):
+    """mark some bundled events as 'written as the last block of an extends chain' (see expand_via_extends); drawn from a
+    side generator seeded by the configuration."""
+    import json
+    import zlib
+
+    side = random.Random(zlib.crc32(json.dumps(cfg, sort_keys=True, default=str).encode()) ^ 0x5EED)
+    for name, v in cfg.items():
+        if isinstance(v, dict) and v.get("class") in ("PriceLimitRule", "TradingHaltRule", "FundamentalPriceShock",
+                                                      "OrderMistakeShock") and "extends" not in v and side.random() < p:
+            v["viaExtends"] = True
+
+
+def expand_via_extends(settings):
+    """in the settings handed to the runner (not in the case, which keeps the flat, intended values the monitors read):
+    every marked event block E becomes  E = {extends: E__mid, <harness keys>},  E__mid = {extends: <template>, every key
+    of E with its intended value},  <template> = {class, every key with ANOTHER value of the same type}. Marked events of
+    one class share ONE template block (siblings deriving from a common parent). Inheritance must give every event
+    exactly its own intended values: the nearest block that defines a key wins, and resolving one event leaves the
+    blocks of the others alone."""
+    markets = list(settings["simulation"]["markets"])
+    templates = {}
+    for name, v in list(settings.items()):
+        if not (isinstance(v, dict) and v.pop("viaExtends", None)):
+            continue
+        leaf_keys = ("firstAttempt", "extraTargets")
+        own = {k: x for k, x in v.items() if k not in leaf_keys and k != "class"}
+        cls_name = v["class"]
+        tname = templates.get(cls_name)
+        if tname is None:
+            tname = templates[cls_name] = "%s__template" % name
+            t = {"class": cls_name}
+            t.update({k: _wrong(x, markets) for k, x in own.items()})
+            t.setdefault("enabled", False)
+            settings[tname] = t
+            taps.hits["event_template_block_with_other_values"] += 1
+        else:
+            taps.hits["second_event_deriving_from_the_same_template_block"] += 1
+        mid = {"extends": tname}
+        mid.update(own)
+        mid.setdefault("enabled", True)
+        settings[name + "__mid"] = mid
+        leaf = {"extends": name + "__mid"}
+        leaf.update({k: v[k] for k in leaf_keys if k in v})
+        settings[name] = leaf
+        taps.hits["event_written_as_last_block_of_a_two_level_extends_chain"] += 1
 
 
 def sprinkle_obsolete_keys(cfg, p=0.3):
